@@ -9,7 +9,7 @@ import (
 	"verifharness/internal/val"
 )
 
-var c06Floor = []string{"distinct", "distinct.star", "distinct.multi", "distinct.dups", "distinct.lookalike", "distinct.grouped", "distinct.derived", "distinct.cte", "union.all", "union.distinct", "union.mixed", "chain.2", "chain.3", "chain.4", "union.limit", "union.limit.offset", "union.dups", "where"}
+var c06Floor = []string{"distinct", "distinct.star", "distinct.multi", "distinct.dups", "distinct.lookalike", "distinct.grouped", "distinct.derived", "distinct.cte", "union.all", "union.distinct", "union.mixed", "chain.2", "chain.3", "chain.4", "union.limit", "union.limit.offset", "union.dups", "where", "badutf8", "union.cte", "union.cte.chain3"}
 
 func init() {
 	fw.Register(&fw.Prop{
@@ -34,11 +34,18 @@ func init() {
 
 var c06Values = []any{1.0, "1", 2.0, "2", "x", "x b:y", "y", "a:1", "map[a:1]", "[1 2]", "<nil>", nil, true, "true", "", " ", "1 1", 1.5, "1.5"}
 
+// strings that are not valid UTF-8 and differ only in their invalid bytes
+var c06BadUTF8 = []any{"caf\xe9", "caf\xe8", "caf\xc3", "\xff", "\xfe", "caf\ufffd"}
+
 func c06Table(c *fw.Case, name string) *gen.Table {
 	t := &gen.Table{Name: name}
 	pool := append([]any{}, c06Values...)
 	c.R.Shuffle(len(pool), func(i, j int) { pool[i], pool[j] = pool[j], pool[i] })
 	pool = pool[:2+c.Intn(4)]
+	if c.Chance(0.15) {
+		pool = append(pool[:1], c06BadUTF8[:2+c.Intn(len(c06BadUTF8)-1)]...)
+		c.Feature("badutf8")
+	}
 	n := c.Intn(pick(c.Tier, 11, 30))
 	for i := 0; i < n; i++ {
 		row := map[string]any{"a": gen.Pick(c.R, pool), "b": gen.Pick(c.R, pool)}
@@ -178,9 +185,21 @@ func c06Run(c *fw.Case) {
 	}
 	var branches []string
 	var conns []bool // true = ALL
+	// the branches may read the tables through CTEs of the statement
+	overCTE := force == "union.cte" || force == "union.cte.chain3" || force == "" && c.Chance(0.3)
+	if force == "union.cte.chain3" {
+		k = 3 + c.Intn(2)
+	}
+	cteOf := map[string]string{"t1": "x1", "t2": "y2"}
+	var standalone []string
 	for i := 0; i < k; i++ {
 		tb := gen.Pick(c.R, []string{"t1", "t2"})
-		branches = append(branches, "SELECT "+sel+" FROM "+tb+whereOf())
+		w := whereOf()
+		standalone = append(standalone, "SELECT "+sel+" FROM "+tb+w)
+		if overCTE && (i < 2 || c.Chance(0.7)) {
+			tb = cteOf[tb]
+		}
+		branches = append(branches, "SELECT "+sel+" FROM "+tb+w)
 		if i > 0 {
 			all := c.Chance(0.5)
 			switch force {
@@ -215,10 +234,17 @@ func c06Run(c *fw.Case) {
 	if nAll > 0 && nDis > 0 {
 		feats = append(feats, "union.mixed")
 	}
+	if overCTE {
+		sql = "WITH x1 AS (SELECT * FROM t1), y2 AS (SELECT * FROM t2) " + sql
+		feats = append(feats, "union.cte")
+		if k >= 3 {
+			feats = append(feats, "union.cte.chain3")
+		}
+	}
 	// fold of standalone outputs
 	var acc []any
 	evals := 0
-	for i, b := range branches {
+	for i, b := range standalone {
 		o := Run(doc(), b)
 		evals++
 		if !o.OK() {
